@@ -1023,17 +1023,21 @@ func (d *decoderState) consumeObject(flags *jsonwire.ValueFlags, pos, depth int)
 		if !d.Flags.Get(jsonflags.AllowDuplicateNames) && !names.insertQuoted(quotedName, flags2.IsVerbatim()) {
 			return pos - n, wrapWithObjectName(ErrDuplicateName, quotedName)
 		}
+		// NOTE: quotedName must not be used past this point since
+		// fetching more data may move or reallocate d.buf.
+		// Derive the name from its absolute offset instead.
+		absNamePos := d.baseOffset + int64(pos-n)
 
 		// Handle after name.
 		pos += jsonwire.ConsumeWhitespace(d.buf[pos:])
 		if d.needMore(pos) {
 			if pos, err = d.consumeWhitespace(pos); err != nil {
-				return pos, wrapWithObjectName(err, quotedName)
+				return pos, wrapWithObjectName(err, d.quotedNameAt(absNamePos, n))
 			}
 		}
 		if d.buf[pos] != ':' {
 			err := jsonwire.NewInvalidCharacterError(d.buf[pos:], "after object name (expecting ':')")
-			return pos, wrapWithObjectName(err, quotedName)
+			return pos, wrapWithObjectName(err, d.quotedNameAt(absNamePos, n))
 		}
 		pos++
 
@@ -1041,12 +1045,12 @@ func (d *decoderState) consumeObject(flags *jsonwire.ValueFlags, pos, depth int)
 		pos += jsonwire.ConsumeWhitespace(d.buf[pos:])
 		if d.needMore(pos) {
 			if pos, err = d.consumeWhitespace(pos); err != nil {
-				return pos, wrapWithObjectName(err, quotedName)
+				return pos, wrapWithObjectName(err, d.quotedNameAt(absNamePos, n))
 			}
 		}
 		pos, err = d.consumeValue(flags, pos, depth)
 		if err != nil {
-			return pos, wrapWithObjectName(err, quotedName)
+			return pos, wrapWithObjectName(err, d.quotedNameAt(absNamePos, n))
 		}
 
 		// Handle after value.
@@ -1067,6 +1071,14 @@ func (d *decoderState) consumeObject(flags *jsonwire.ValueFlags, pos, depth int)
 			return pos, jsonwire.NewInvalidCharacterError(d.buf[pos:], "after object value (expecting ',' or '}')")
 		}
 	}
+}
+
+// quotedNameAt returns the n-byte quoted name that starts at absolute offset absPos.
+// It must be used instead of a previously obtained slice of d.buf after any
+// call that may fetch more data since fetch may move or reallocate d.buf.
+func (d *decoderState) quotedNameAt(absPos int64, n int) []byte {
+	pos := int(absPos - d.baseOffset)
+	return d.buf[pos : pos+n]
 }
 
 // consumeArray consumes a single JSON array starting at d.buf[pos:].
